@@ -133,7 +133,69 @@ func checkC19(c *Ctx, r *Report) {
 			r.Fail("C19.c", "R11 STAGED", name+"/parses", c.pos(sc.TemplPos), "the embedded template does not parse: WriteFile panics after the output file has been created and truncated ("+strings.Join(sc.Errs, "; ")+")")
 			continue
 		}
-		r.OK("C19.c", "R11 STAGED", name+"/parses", c.pos(sc.TemplPos), "the embedded template parses; every action is a single existing builder field")
+		r.OK("C19.c", "R11 STAGED", name+"/parses", c.pos(sc.TemplPos), "the embedded template parses")
+		// template data is inert: every {{.X}} names a FIELD of the builder (filled before the file is created);
+		// a method would run builder code — with all its panics — inside Execute, after os.Create truncated the file
+		{
+			var refs []string
+			var walk func(n parse.Node)
+			walk = func(n parse.Node) {
+				switch x := n.(type) {
+				case *parse.ListNode:
+					if x != nil {
+						for _, m := range x.Nodes {
+							walk(m)
+						}
+					}
+				case *parse.ActionNode:
+					walk(x.Pipe)
+				case *parse.PipeNode:
+					if x != nil {
+						for _, cmd := range x.Cmds {
+							for _, a := range cmd.Args {
+								walk(a)
+							}
+						}
+					}
+				case *parse.FieldNode:
+					if len(x.Ident) > 0 {
+						refs = append(refs, x.Ident[0])
+					}
+				case *parse.ChainNode:
+					walk(x.Node)
+				case *parse.IfNode:
+					walk(x.Pipe)
+					walk(x.List)
+					walk(x.ElseList)
+				case *parse.RangeNode:
+					walk(x.Pipe)
+					walk(x.List)
+					walk(x.ElseList)
+				case *parse.WithNode:
+					walk(x.Pipe)
+					walk(x.List)
+					walk(x.ElseList)
+				case *parse.IdentifierNode:
+					refs = append(refs, "func "+x.Ident)
+				case *parse.TemplateNode:
+					walk(x.Pipe)
+				}
+			}
+			walk(sc.Tree.Root)
+			bad := ""
+			for _, ref := range refs {
+				if strings.HasPrefix(ref, "func ") {
+					bad = "the template calls the function " + strings.TrimPrefix(ref, "func ")
+					continue
+				}
+				if sc.FieldOf[ref] == nil {
+					bad = "{{." + ref + "}} is not a field of the builder (a method or a missing name): it is evaluated while the template executes"
+				}
+			}
+			r.Check(bad == "" && len(refs) > 0, "C19.b", "R2 ORDER", name+"/template-data-is-inert", c.pos(sc.TemplPos),
+				fmt.Sprintf("all %d references of the template are plain fields of the builder, computed before the output file is created: executing the template runs no generator code", len(refs)),
+				"template execution can fail after the output file has been created and truncated: "+bad)
+		}
 		nodes := sc.Tree.Root.Nodes
 		last := ""
 		for i := len(nodes) - 1; i >= 0; i-- {
